@@ -224,6 +224,30 @@ func driveC09(seed int64, tier, out, replay string) {
 			}
 		}
 	}
+	// listed findings: a scripted downstream body through the real MultiOpQueryer; still failing while the value the
+	// service returned is not, as text, in what Query hands on
+	for _, k := range loadKnown("C09") {
+		var kc struct {
+			N      int    `json:"n"`
+			Body   string `json:"body"`
+			Expect string `json:"expect"`
+		}
+		if jsonUnmarshal(k.Input, &kc) != nil || kc.N == 0 {
+			continue
+		}
+		q := queryer.NewMultiOpQueryer("http://svc.invalid/graphql", 100).WithHTTPClient(&http.Client{Transport: scriptRT{c09Case{N: kc.N, Kind: "body", Body: kc.Body}}})
+		inputs := make([]*requests.Request, kc.N)
+		for i := range inputs {
+			inputs[i] = &requests.Request{Query: fmt.Sprintf("{ r%d }", i)}
+		}
+		res, err := q.Query(inputs)
+		b, _ := json.Marshal(res)
+		if err == nil && !strings.Contains(string(b), kc.Expect) {
+			obs.KnownHit = append(obs.KnownHit, hx.Failure{Key: k.Key, What: k.Key + ": " + k.What})
+		} else {
+			obs.KnownGone = append(obs.KnownGone, k.Key)
+		}
+	}
 	var coq []string
 	distinct := map[string]bool{}
 	rigs := map[int64]*Rig{}
